@@ -79,6 +79,10 @@ def run_ineq(chk, case, rs, frags):
                 chk.violation("ineq:var_vs_obj:nopara:" + tag, "variable-level inequality projection differs from the object-level one", case)
             if not np.array_equal(v, keep):
                 chk.violation("ineq:mutation:var:" + tag, "calc_proj_ineq_constraint_with_var modified its argument", case)
+            f2 = obj.func_calc_proj_ineq_constraint_with_var(False)
+            r3 = np.asarray(f2(keep.copy()))
+            if not coords.close(r3, stacked(res), 1e-9):
+                chk.violation("ineq:closure_with_var:nopara:" + tag, "func_calc_proj_ineq_constraint_with_var(False) differs from the object-level projection", case)
             f = obj.func_calc_proj_ineq_constraint(False)
             r2 = np.asarray(f(keep.copy()))
             if not coords.close(r2, stacked(res), 1e-9):
@@ -166,6 +170,11 @@ def run_eq(chk, case):
                 chk.violation("eq:var:%s:%s" % ("para" if para else "nopara", tag), "calc_proj_eq_constraint_with_var differs from the exact projection", case)
             if not np.array_equal(v, keep):
                 chk.violation("mutation:%s:eq_with_var:%s" % (ty, "para" if para else "nopara"), "calc_proj_eq_constraint_with_var modified its argument", case)
+            # the variable-level closure, with the flag given explicitly on an object built with the default flag
+            f2 = obj.func_calc_proj_eq_constraint_with_var(para)
+            r3 = np.asarray(f2(keep.copy()))
+            if not coords.close(r3, w, 1e-9):
+                chk.violation("eq:closure_with_var:%s:%s" % ("para" if para else "nopara", tag), "func_calc_proj_eq_constraint_with_var(%s) differs from the exact projection" % para, case)
             f = obj.func_calc_proj_eq_constraint(para)
             r2 = np.asarray(f(keep.copy()))
             if not coords.close(r2, w, 1e-9):
